@@ -10,7 +10,7 @@ statement decided from a free state (the designs are stateless), complete per de
 import itertools
 import z3
 from ..harness import Harness, Built
-from ..seq import Unroll
+from ..seq import Unroll, cosim
 from ..util import atmost1
 
 PROP = "C13"
@@ -330,8 +330,16 @@ def _prove(ctx, name, goal, u, tries=6):
 
 
 def run(cfg, ctx):
-    b = Built(lambda: make(cfg), trace_functions=(ctx.index == 0))
+    simple = cfg["writers"] == 1 and cfg["readers"] == 1 and cfg.get("thirds", 1) == 1
+    b = Built(lambda: make(cfg), trace_functions=(ctx.index == 0 or simple and cfg["extra"] == 0))
     ctx.functions = b.functions
+    if ctx.index < 3 and simple:
+        # translator validation on random input traces (single merged transaction: elaboration order cannot differ)
+        pts, mism = cosim(b, 6, ctx.seed)
+        ctx.cosim_points += pts
+        ctx.cosim_traces += 1
+        if mism:
+            ctx.errors.append(f"cosim mismatch encoder vs pysim in cfg {cfg}: {mism[:4]}")
     u = Unroll(b, free_init=True)
     o = u.cycle()
     ctx.frames += 1
